@@ -340,6 +340,13 @@ func SubscribeWithReplay[T any](
 		offset := bus.lastOffset
 		bus.storeMu.RUnlock()
 
+		// Nothing has been appended through this bus yet (the event's own
+		// append failed): saving the empty offset would move the saved
+		// position back to the beginning of the log
+		if offset == OffsetOldest {
+			return
+		}
+
 		subStore.SaveOffset(ctx, subscriptionID, offset)
 	}
 
